@@ -193,10 +193,15 @@ class C12(Check):
             main = MAIN_KINDS[(index // len(self.points)) % len(MAIN_KINDS)]
         version = '1.1' if m == 'override' else rng.choice(['1.0', '1.1'])
         self._relbase = rng.random() < 0.25
+        if s == 'abs_other_tree_sandbox' and a == 'sandbox' and m != 'hint_validate':
+            self._relbase, main = True, 'path'     # the two-step (other cwd, same relative base) case
         if m == 'hint_validate':
             main = 'path'      # the instance document is the main source; the schema comes from its hints
+        relbase = bool(self._relbase and main in ('path', 'text_base') and a == 'sandbox')
         return {'allow': a, 'mech': m, 'spell': s, 'main': main, 'slash': rng.random() < 0.5, 'version': version,
-                'relbase': bool(self._relbase and main in ('path', 'text_base') and a == 'sandbox')}
+                'relbase': relbase,
+                # the main source itself lies in the OTHER tree (outside the sandbox of the current directory)
+                'othertree': bool(relbase and main == 'path' and rng.random() < 0.5)}
 
     # ------------------------------------------------------------------
     def run_case(self, case):
@@ -292,13 +297,16 @@ class C12(Check):
                 with warnings.catch_warnings():
                     warnings.simplefilter('ignore')
                     cls(world_a.write('base/sand/main.xsd', main_xsd('include', 'inc.xsd', case['version'])),
-                        allow='sandbox', base_url='base/sand')
+                        allow='sandbox', base_url='base/sand' + ('/' if case['slash'] else ''))
             except Exception:
                 pass
             # step 2: the real case, relative base under the real tree
             os.chdir(root)
             kw['base_url'] = 'base/sand' + ('/' if case['slash'] else '')
             counters['relative_base_with_chdir_prelude'] = 1
+            if case.get('othertree'):
+                source = world_a.write('base/sand/main.xsd', text)
+                counters['main_source_in_other_tree'] = 1
 
         schema = None
         outcome = {'exc': None, 'msg': None, 'warnings': []}
